@@ -3,18 +3,29 @@ import TinodeVerif.Driver.C04
 import TinodeVerif.Driver.C20
 import TinodeVerif.Driver.C17
 import TinodeVerif.Driver.C19
+import TinodeVerif.Driver.C12
 /-!
 Line-protocol driver. Usage:
   driver model    < ops.txt        > model.out     one output line per op line
   driver verdict  < ops+out.txt    > verdict.out   input lines "op words \t output words"
+Stateless op families are pure functions of the line; stateful families thread `DState`
+(reset by their own `*.reset` op).
 -/
 open Tinode
 
-def modelLine (line : String) : String :=
+structure DState where
+  code : Driver.C12.CodeSt := {}
+
+def modelLine (st : DState) (line : String) : DState × String :=
   let ws := Wire.words line
   match ws with
-  | [] => ""
+  | [] => (st, "")
   | w :: _ =>
+    if w.startsWith "code." then
+      match Driver.C12.stepCode st.code ws with
+      | some (c, out) => ({ st with code := c }, out)
+      | none => (st, "bad-op")
+    else
     let r :=
       if w.startsWith "acs." then Driver.C05.model ws
       else if w.startsWith "rng." then Driver.C04.model ws
@@ -22,10 +33,11 @@ def modelLine (line : String) : String :=
       else if w.startsWith "ring." then Driver.C17.model ws
       else if w.startsWith "elect." then Driver.C17.modelE ws
       else if w.startsWith "q." || w.startsWith "tags." then Driver.C19.model ws
+      else if w.startsWith "tok." || w.startsWith "key." then Driver.C12.model ws
       else none
     match r with
-    | some s => s
-    | none => "bad-op"
+    | some s => (st, s)
+    | none => (st, "bad-op")
 
 def verdictLine (line : String) : String :=
   match line.splitOn "\t" with
@@ -41,12 +53,21 @@ def verdictLine (line : String) : String :=
         else if w.startsWith "uid." then Driver.C20.verdict ws os
         else if w.startsWith "ring." then Driver.C17.verdict ws os
         else if w.startsWith "q." || w.startsWith "tags." then Driver.C19.verdict ws os
+        else if w.startsWith "tok." || w.startsWith "key." || w.startsWith "code." then Driver.C12.verdict ws os
         else some true
       match r with
       | some true => "ok"
       | some false => "FAIL"
       | none => "bad-op"
   | _ => "bad-line"
+
+partial def loopModel (h : IO.FS.Stream) (out : IO.FS.Stream) (st : DState) : IO Unit := do
+  let line ← h.getLine
+  if line.isEmpty then return ()
+  let l := if line.endsWith "\n" then (line.dropEnd 1).toString else line
+  let (st', o) := modelLine st l
+  out.putStrLn o
+  loopModel h out st'
 
 partial def loop (h : IO.FS.Stream) (out : IO.FS.Stream) (f : String → String) : IO Unit := do
   let line ← h.getLine
@@ -59,6 +80,6 @@ def main (args : List String) : IO UInt32 := do
   let stdin ← IO.getStdin
   let stdout ← IO.getStdout
   match args with
-  | ["model"] => loop stdin stdout modelLine; stdout.flush; return 0
+  | ["model"] => loopModel stdin stdout {}; stdout.flush; return 0
   | ["verdict"] => loop stdin stdout verdictLine; stdout.flush; return 0
   | _ => IO.eprintln "usage: driver model|verdict"; return 2
